@@ -239,6 +239,7 @@ fn script_base(m: u64, k: u64, broken: bool) -> String {
     // `Inner`/`Outer`/`Plain` have the same names in every version, but `Inner` is wider in odd ones
     let inner_extra = if k % 2 == 1 { ", b: u64, c: u64" } else { "" };
     let inner_init = if k % 2 == 1 { ", b: 20, c: 30" } else { "" };
+    let inner_read = if k % 2 == 1 { " + o.i.b + o.i.c" } else { "" };
     let decl_c = format!("const {c}: Tr = mk({c0});");
     let decl_d = format!("const {d}: Tr = {c};");
     let (first, second) = if k % 2 == 1 { (decl_d, decl_c) } else { (decl_c, decl_d) };
@@ -288,7 +289,7 @@ fn f(x: u64) -> u64 {{
     let pl = PC;
     pl.a = pl.a + x;
     let o = Outer {{ i: Inner {{ a: 5{inner_init} }}, z: x }};
-    acc = acc + pl.a + pl.c + o.z + o.i.a;
+    acc = acc + pl.a + pl.c + o.z + o.i.a{inner_read};
     acc + cap2() + cap3() + usez_{k}() - 1
 }}
 const ZC: Zt = mkz();
@@ -768,7 +769,7 @@ fn exec_inner(op: &LifeOp) -> bool {
                     };
                     let log = take_hostlog();
                     let many: u64 = (0..many_constants(k)).filter(|i| i % 10 != 9).map(|i| i + k).sum();
-                    let want = x.wrapping_mul(k) + 2 * c + (200 + rid) + (100 + rid) + 2 + 1 + (c + 2) + k + (c + 3) + (300 + rid) + 2 + extras.iter().sum::<u64>() + many + (600 + rid) + (700 + rid) + (k + x) + 3 + x + 5;
+                    let want = x.wrapping_mul(k) + 2 * c + (200 + rid) + (100 + rid) + 2 + 1 + (c + 2) + k + (c + 3) + (300 + rid) + 2 + extras.iter().sum::<u64>() + many + (600 + rid) + (700 + rid) + (k + x) + 3 + x + 5 + if k % 2 == 1 { 50 } else { 0 };
                     let mut want_log: Vec<(&str, u64)> = vec![("log", *x), ("val", c), ("val", c), ("val", 200 + rid), ("cap", 100 + rid), ("val", c + 2), ("val", c + 3), ("val", 300 + rid)];
                     want_log.extend(extras.iter().map(|p| if *p >= 6000 { ("cap", *p) } else { ("val", *p) }));
                     want_log.push(("cap", 600 + rid));
